@@ -224,7 +224,7 @@ pub fn run(args: &Args) -> Out {
         let v: Value = serde_json::from_str(&std::fs::read_to_string(p).ok()?).ok()?;
         v["replay"]["case"].as_u64().map(|x| x as usize)
     });
-    let n = args.n(32_000, 1_600_000);
+    let n = args.n(96_000, 1_600_000);
     for idx in 0..n {
         if let Some(o) = only {
             if o != idx {
